@@ -208,6 +208,18 @@ func Catalogue() []Edit {
 	})
 	add("job/sample_limit", func(s *Spec, t *rapid.T) bool { j := anyJob(s, t, nil); j.SampleLimit += 7; return true })
 	add("job/label_limit", func(s *Spec, t *rapid.T) bool { j := anyJob(s, t, nil); j.LabelLimit += 3; return true })
+	add("job/target_limit", func(s *Spec, t *rapid.T) bool { j := anyJob(s, t, nil); j.TargetLimit += 11; return true })
+	add("job/label_name_length_limit", func(s *Spec, t *rapid.T) bool { j := anyJob(s, t, nil); j.NameLenLimit += 5; return true })
+	add("job/label_value_length_limit", func(s *Spec, t *rapid.T) bool { j := anyJob(s, t, nil); j.ValueLenLimit += 5; return true })
+	add("job/body_size_limit", func(s *Spec, t *rapid.T) bool {
+		j := anyJob(s, t, nil)
+		if j.BodySizeLimit == "20MB" {
+			j.BodySizeLimit = "21MB"
+		} else {
+			j.BodySizeLimit = "20MB"
+		}
+		return true
+	})
 	add("job/secret", func(s *Spec, t *rapid.T) bool {
 		j := anyJob(s, t, func(j *Job) bool { return j.Auth.Kind != "" && j.Auth.Kind != "bearer_file" })
 		return j != nil && editAuth(&j.Auth)
